@@ -182,6 +182,12 @@ def pipe_shapes(tier):
     # g: predefined zone and a redefined GLOBAL
     S.append(mk('predefined-zone-vs-global', [('memzone', 'Z'), ('data', '.byte', [C(1), C(2)])], {},
                 global_zone=(0x10, 0x3f), zones={'Z': (Sym('zs', 0, 0x50), Sym('ze', 0, 0x60))}, origin=0x10))
+    for pos, nm in ((1, 'global-listed-last'), (1, 'global-listed-between')):
+        zs = {'Z': (Sym('zs', 0, 0x50), Sym('ze', 0, 0x60))}
+        if nm.endswith('between'):
+            zs['Y'] = (0x20, 0x2f)
+        S.append(mk(f'predefined-zone-vs-global:{nm}', [('memzone', 'Z'), ('data', '.byte', [C(1), C(2)])], {},
+                    global_zone=(0x10, 0x3f), zones=zs, origin=0x10, global_position=pos))
     # h: adjacent and overlapping zones
     S.append(mk('adjacent-zones', [
         ('memzone', 'ZA'), ('fill', V('n'), C(1)), ('memzone', 'ZB'), ('data', '.byte', [C(2), C(3)])], N,
